@@ -775,6 +775,55 @@ fn gen_shape(rng: &mut Rng, pool_sizes: &[u64], base_of: &mut dyn FnMut(u8, u32,
     }
 }
 
+/// (opcode, flags, argument sizes) whose true product base × (multiplier + 1) is exactly 2^32 − 1 (the
+/// largest cost an unknown operator may have), and the same lists with the first argument one byte
+/// shorter / longer.  The base must be a divisor of 2^32 − 1 = 3·5·17·257·65537, so probing
+/// ⌊(2^32−1)/base⌋ for arbitrary bases never lands on the limit itself.
+fn exact_limit_cases() -> Vec<(Vec<u8>, u32, Vec<u64>)> {
+    let primes = [3u128, 5, 17, 257, 65537];
+    let mut divisors = vec![];
+    for mask in 0..32u32 {
+        let d: u128 = primes.iter().enumerate().filter(|(i, _)| mask >> i & 1 == 1).map(|(_, p)| *p).product();
+        if (100..=400_000).contains(&d) {
+            divisors.push(d);
+        }
+    }
+    let mut out = vec![];
+    for d in divisors {
+        let m1 = U32MAX / d;
+        for cf in 1..=3u8 {
+            for nm in [false, true] {
+                for rest in [vec![], vec![0u64], vec![7], vec![1, 30], vec![64, 0, 3]] {
+                    let base_of = |s: u64| {
+                        let mut sz = vec![Some(s)];
+                        sz.extend(rest.iter().map(|x| Some(*x)));
+                        rule_walk(cf, nm, u128::MAX, &sz).unwrap()
+                    };
+                    let (mut lo, mut hi) = (0u64, d as u64);
+                    while lo < hi {
+                        let mid = (lo + hi) / 2;
+                        if base_of(mid) < d { lo = mid + 1 } else { hi = mid }
+                    }
+                    if base_of(lo) != d {
+                        continue;
+                    }
+                    let mut op = mult_bytes((m1 - 1) as u64);
+                    op.push(cf << 6 | (d % 64) as u8);
+                    if op.len() >= 3 && op[0] == 0xff && op[1] == 0xff {
+                        continue;
+                    }
+                    for s in [lo, lo + 1, lo.saturating_sub(1)] {
+                        let mut sz = vec![s];
+                        sz.extend(rest.iter().copied());
+                        out.push((op.clone(), if nm { 0x2000 } else { 0 }, sz));
+                    }
+                }
+            }
+        }
+    }
+    out
+}
+
 fn generate_costs_unknown(rng: &mut Rng, n: usize, tier: &str) -> Vec<String> {
     let thorough = tier == "thorough";
     let mut out = Vec::new();
@@ -803,6 +852,13 @@ fn generate_costs_unknown(rng: &mut Rng, n: usize, tier: &str) -> Vec<String> {
             for flags in [0u32, 0x2000] {
                 push(&op, flags, 1 << 62, &items);
             }
+        }
+    }
+    // products exactly at the limit 2^32 − 1 (and one byte of argument either side)
+    for (op, flags, sz) in exact_limit_cases() {
+        let items: Vec<String> = sz.iter().map(|l| format!("~0+{}", l)).collect();
+        for budget in [1u64 << 62, 0xffff_ffff, 0xffff_fffe] {
+            push(&op, flags, budget, &join_items(&items));
         }
     }
     for _ in 0..n {
@@ -999,6 +1055,16 @@ fn oracle_unknown_rule(rng: &mut Rng, n: usize, tier: &str) -> OracleReport {
                     }
                 }
             }
+        }
+    }
+
+    // 2b. products exactly at the limit 2^32 − 1
+    for (op, flags, sz) in exact_limit_cases() {
+        let ns: Vec<NodePtr> = sz.iter().map(|l| a.new_atom(&zbuf()[..*l as usize]).unwrap()).collect();
+        let list = list_of(&mut a, &ns);
+        let szo: Vec<Option<u64>> = sz.iter().map(|l| Some(*l)).collect();
+        for budget in [1u64 << 62, 0xffff_ffff, 0xffff_fffe] {
+            check_unknown(&mut rep, &mut a, &op, flags, budget, list, &szo);
         }
     }
 
